@@ -293,6 +293,16 @@ class Model:
         if not parents:
             raise Skip('no namespace available')
         nm = self._new_names(op, False, parents)
+        if op.get('vtwin') and 'iso' in parents:
+            # another version of a file that is already in this directory: the same name and extension, a different number after ';'
+            sibs = sorted(p for p, e in self.t['iso'].items() if p != '/' and parent_of(p) == parents['iso'] and e['type'] == 'file' and ';' in p.rsplit('/', 1)[1])
+            if sibs:
+                base = sibs[op['vtwin'] % len(sibs)].rsplit('/', 1)[1].rpartition(';')[0]
+                for v in ([2, 3, 32767, 1, 10] * 2)[op['vtwin'] % 5:]:
+                    if join(parents['iso'], '%s;%d' % (base, v)) not in self.t['iso']:
+                        nm = dict(nm, iso='%s;%d' % (base, v))
+                        self.classes.add('other-version-of-a-sibling')
+                        break
         length = op['len']
         if length > 0xffffffff and self.level < 3 and 'iso' in parents:
             raise Skip('large file below level 3')
